@@ -60,6 +60,25 @@ def corpus(env, rng, which):
             ops += ["closedir $r", "closevol $v", "openroot $v -> $stale", "hasopen", "closedir $stale", "openroot #4242 -> $never", "closedir $never"]
         env.add_script("corpus%d" % j, path, (1, 4, 4), ops, 5000, (), meta)
 
+def grow_scripts(env, rng, count, dirty=0, big=False):
+    """directed: directories whose clusters are exactly full (or multi-cluster), so that a create has to grow them
+    or has to find its slot in a later cluster"""
+    hx = fsgen.hx
+    for j in range(count):
+        geo = fsgen.geometry(rng, None, ["f16_min", "f16_spc2", "f32_min", "f32_root5", "f16_exact"])
+        img, meta = fsgen.build_image(rng, geo, populate=1, dirty_free=dirty, exact_dir=(j % 2 == 0), big_dir=(big or j % 2 == 1))
+        path, dev = env.new_image(img, "grow%d" % j)
+        meta = dict(meta); meta["dev0"] = dev
+        ops = ["openvol %d -> $v" % meta["slot"], "openroot $v -> $r", "opendir $r %s -> $s" % hx("SUB")]
+        for i in range(4):
+            tgt = rng.choice(["$s", "$s", "$r"])
+            ops.append(rng.choice(["open %s %s RWC -> $n%d" % (tgt, hx("NEW%d.X" % i), i), "mkdir %s %s" % (tgt, hx("ND%d" % i)),
+                                   "open %s %s RWCA -> $n%d" % (tgt, hx("NEW%d.X" % i), i)]))
+            if ops[-1].startswith("open"):
+                ops += ["write $n%d %d %d" % (i, rng.choice([10, 600, 1500]), i), "close $n%d" % i]
+        ops += ["iter $s", "find $s %s" % hx("NEW0.X"), "find $s %s" % hx("NEW3.X")]
+        env.add_script("grow%03d" % j, path, (1, 4, 4), ops, 5000, (), meta)
+
 def tier_n(run, quick, thorough):
     return thorough if run.tier == "thorough" else quick
 
@@ -168,6 +187,69 @@ def final_image(sc):
             dev[int(b)] = bytes.fromhex(c)
     return dev
 
+def c02_oracle(sc):
+    tr = O.Trace(sc)
+    probs, sp = O.run_spec(tr, sc["meta"]["dev0"], sc["meta"]["slot"], checks=())
+    if sp is None:
+        return []
+    dev = final_image(sc)
+    g, flat, fprobs = tree_of(dev, sc["meta"]["slot"])
+    out = []
+    if g is None:
+        out.append("final medium does not mount")
+    else:
+        g0, flat0, _ = tree_of(sc["meta"]["dev0"], sc["meta"]["slot"])
+        still_open = {f["path"] for f in sp.open.values()}
+        for path, data in sp.files.items():
+            if path in still_open:
+                continue
+            e = flat.get(path)
+            if path in sp.flushed:
+                want = sp.flushed[path][0]
+            elif path in sp.touched:
+                continue        # modified but never successfully flushed/closed: no claim
+            else:
+                want = bytes(data)
+            if e is None:
+                if "å" in path or path.rsplit("/", 1)[-1][:1] == "\xe5":
+                    out.append("KNOWN-e5 %s stored with first byte 0xE5 is invisible to a FAT reader" % path)
+                else:
+                    out.append("%s: flushed file is missing from the medium" % path)
+            elif e.is_dir:
+                out.append("%s: is a directory on the medium" % path)
+            elif e.size != len(want) or (e.data or b"") != want:
+                out.append("%s: medium holds %d bytes, flushed contents have %d bytes%s" % (path, e.size, len(want), "" if e.size != len(want) else " (contents differ)"))
+        for path in sp.dirs:
+            if path and (path not in flat or not flat[path].is_dir):
+                out.append("%s: directory missing from the medium" % path)
+        # untouched files and directories: entry bytes and data byte-for-byte unchanged; ctime never changes
+        for path, e0 in flat0.items():
+            e1 = flat.get(path)
+            if e1 is not None and path not in sp.deleted and (e1.ctime, e1.cdate) != (e0.ctime, e0.cdate):
+                if (e0.cdate & 0x1F) == 0 or ((e0.cdate >> 5) & 0xF) == 0:
+                    out.append("KNOWN-zero-cdate %s creation date re-encoded from %04x to %04x" % (path, e0.cdate, e1.cdate))
+                else:
+                    out.append("%s: creation time changed from %04x/%04x to %04x/%04x" % (path, e0.cdate, e0.ctime, e1.cdate, e1.ctime))
+            if path in sp.touched or e1 is None:
+                if e1 is None and path not in sp.touched and not any(path.startswith(t + "/") for t in sp.touched):
+                    out.append("%s: untouched entry disappeared" % path)
+                continue
+            if False:
+                if (e0.cdate & 0x1F) == 0 or ((e0.cdate >> 5) & 0xF) == 0:
+                    out.append("KNOWN-zero-cdate %s creation date re-encoded" % path)
+                else:
+                    out.append("%s: creation time changed from %04x/%04x to %04x/%04x" % (path, e0.cdate, e0.ctime, e1.cdate, e1.ctime))
+            if not any(f == path for f in sp.flushed) and not e0.is_dir:
+                if e1.raw != e0.raw or (e1.data or b"") != (e0.data or b""):
+                    out.append("%s: untouched file changed on the medium" % path)
+    return out
+
+
+def c02_known(p):
+    if p.startswith("KNOWN-e5"): return "e5-name"
+    if p.startswith("KNOWN-zero-cdate"): return "zero-cdate"
+    return None
+
 def check_C02(run, replay=None):
     env = F.Env(run, "C02.v")
     if not env.ok:
@@ -179,72 +261,16 @@ def check_C02(run, replay=None):
     prof = fsgen.profile(weights=dict(write=12, open=10, close=6, flush=4, delete=4, mkdir=4, read=2, seek=3, bad=1, remount=2), quiesce=True)
     F.std_scenarios(env, rng, n, prof, nops=(20, 60))
     corpus(env, rng, {"e5-name", "zero-cdate"})
+    grow_scripts(env, rng, max(n // 10, 4), big=True)
     env.run_all(writes=True)
     bad = 0
     for sc in env.scripts:
         if bad >= 2:
             break
-        tr = O.Trace(sc)
-        probs, sp = O.run_spec(tr, sc["meta"]["dev0"], sc["meta"]["slot"], checks=())
-        if sp is None:
-            continue
-        dev = final_image(sc)
-        g, flat, fprobs = tree_of(dev, sc["meta"]["slot"])
-        out = []
-        if g is None:
-            out.append("final medium does not mount")
-        else:
-            g0, flat0, _ = tree_of(sc["meta"]["dev0"], sc["meta"]["slot"])
-            still_open = {f["path"] for f in sp.open.values()}
-            for path, data in sp.files.items():
-                if path in still_open:
-                    continue
-                e = flat.get(path)
-                if path in sp.flushed:
-                    want = sp.flushed[path][0]
-                elif path in sp.touched:
-                    continue        # modified but never successfully flushed/closed: no claim
-                else:
-                    want = bytes(data)
-                if e is None:
-                    if "å" in path or path.rsplit("/", 1)[-1][:1] == "\xe5":
-                        out.append("KNOWN-e5 %s stored with first byte 0xE5 is invisible to a FAT reader" % path)
-                    else:
-                        out.append("%s: flushed file is missing from the medium" % path)
-                elif e.is_dir:
-                    out.append("%s: is a directory on the medium" % path)
-                elif e.size != len(want) or (e.data or b"") != want:
-                    out.append("%s: medium holds %d bytes, flushed contents have %d bytes%s" % (path, e.size, len(want), "" if e.size != len(want) else " (contents differ)"))
-            for path in sp.dirs:
-                if path and (path not in flat or not flat[path].is_dir):
-                    out.append("%s: directory missing from the medium" % path)
-            # untouched files and directories: entry bytes and data byte-for-byte unchanged; ctime never changes
-            for path, e0 in flat0.items():
-                e1 = flat.get(path)
-                if e1 is not None and path not in sp.deleted and (e1.ctime, e1.cdate) != (e0.ctime, e0.cdate):
-                    if (e0.cdate & 0x1F) == 0 or ((e0.cdate >> 5) & 0xF) == 0:
-                        out.append("KNOWN-zero-cdate %s creation date re-encoded from %04x to %04x" % (path, e0.cdate, e1.cdate))
-                    else:
-                        out.append("%s: creation time changed from %04x/%04x to %04x/%04x" % (path, e0.cdate, e0.ctime, e1.cdate, e1.ctime))
-                if path in sp.touched or e1 is None:
-                    if e1 is None and path not in sp.touched and not any(path.startswith(t + "/") for t in sp.touched):
-                        out.append("%s: untouched entry disappeared" % path)
-                    continue
-                if False:
-                    if (e0.cdate & 0x1F) == 0 or ((e0.cdate >> 5) & 0xF) == 0:
-                        out.append("KNOWN-zero-cdate %s creation date re-encoded" % path)
-                    else:
-                        out.append("%s: creation time changed from %04x/%04x to %04x/%04x" % (path, e0.cdate, e0.ctime, e1.cdate, e1.ctime))
-                if not any(f == path for f in sp.flushed) and not e0.is_dir:
-                    if e1.raw != e0.raw or (e1.data or b"") != (e0.data or b""):
-                        out.append("%s: untouched file changed on the medium" % path)
-        def known(p):
-            if p.startswith("KNOWN-e5"): return "e5-name"
-            if p.startswith("KNOWN-zero-cdate"): return "zero-cdate"
-            return None
+        out = c02_oracle(sc)
         if out:
-            bad += report_oracle(run, env, sc, out, "fresh mount by an independent FAT reader disagrees with the flushed state", known)
-    common_tail(run, env, run.coverage.get("theorems", []))
+            bad += report_oracle(run, env, sc, out, "fresh mount by an independent FAT reader disagrees with the flushed state", c02_known)
+    common_tail(run, env, run.coverage.get("theorems", []), oracle=c02_oracle, what="fresh mount by an independent FAT reader disagrees with the flushed state", known=c02_known)
     return finish(run, env, "C02", "create/write/truncate/append/delete/mkdir histories ending with every file closed, on pre-populated trees (nested dirs, LFN runs, deleted slots, fragmented chains); oracle = independent python FAT reader (gen/fatck.py) on the implementation's final medium vs the byte-array model, plus byte-identity of untouched entries")
 
 # ============================================================================ C03 / C05 / C16 / C04 share the per-op image walk
@@ -324,6 +350,7 @@ def check_C03(run, replay=None):
     F.std_scenarios(env, rng, n // 8, prof, nops=(20, 50), img_kw=dict(full_root=True), kind="fat16")
     F.std_scenarios(env, rng, n // 8, prof, nops=(20, 50), img_kw=dict(big_dir=True, free_left=2))
     F.std_scenarios(env, rng, max(n // 10, 4), fsgen.profile(weights=dict(mkdir=10, opendir=6, open=10, write=8, close=6)), nops=(15, 35), want=["f32_root5"], img_kw=dict(free_left=12), per_image=2)
+    grow_scripts(env, rng, max(n // 10, 4), big=True)
     env.run_all(writes=True)
     bad = 0
     for sc in env.scripts:
@@ -451,6 +478,7 @@ def check_C06(run, replay=None):
     F.std_scenarios(env, rng, n // 2, prof, nops=(20, 50), img_kw=dict(big_dir=True))
     F.std_scenarios(env, rng, max(n // 10, 4), prof, nops=(15, 35), want=["f32_root5"], img_kw=dict(free_left=12), per_image=2)
     corpus(env, rng, {"e5-name"})
+    grow_scripts(env, rng, max(n // 10, 4), big=True)
     env.run_all(writes=True)
     bad = 0
     for sc in env.scripts:
@@ -922,21 +950,7 @@ def check_C10(run, replay=None):
                          max_write=2500)
     F.std_scenarios(env, rng, n // 2, prof, nops=(15, 35), img_kw=dict(dirty_free=48), want=["f16_min", "f16_exact", "f16_spc2", "f32_min", "f32_root5", "f16_slack"])
     F.std_scenarios(env, rng, n // 2, prof, nops=(15, 35), img_kw=dict(dirty_free=48, big_dir=True), want=["f16_min", "f16_spc2", "f32_min", "f32_root5"])
-    # directed: directories whose clusters are exactly full, so that a create has to grow them
-    for j in range(max(n // 5, 4)):
-        geo = fsgen.geometry(rng, None, ["f16_min", "f16_spc2", "f32_min", "f32_root5", "f16_exact"])
-        img, meta = fsgen.build_image(rng, geo, populate=1, dirty_free=64, exact_dir=True)
-        path, dev = env.new_image(img, "grow%d" % j)
-        meta = dict(meta); meta["dev0"] = dev
-        hx = fsgen.hx
-        ops = ["openvol %d -> $v" % meta["slot"], "openroot $v -> $r", "opendir $r %s -> $s" % hx("SUB")]
-        for i in range(3):
-            tgt = rng.choice(["$s", "$s", "$r"])
-            ops.append(rng.choice(["open %s %s RWC -> $n%d" % (tgt, hx("NEW%d.X" % i), i), "mkdir %s %s" % (tgt, hx("ND%d" % i)),
-                                   "open %s %s RWCA -> $n%d" % (tgt, hx("NEW%d.X" % i), i)]))
-            if ops[-1].startswith("open"):
-                ops += ["write $n%d %d %d" % (i, rng.choice([10, 600, 1500]), i), "close $n%d" % i]
-        env.add_script("grow%03d" % j, path, (1, 4, 4), ops, 5000, (), meta)
+    grow_scripts(env, rng, max(n // 5, 4), dirty=64)
     env.run_all(writes=True)
     bad = 0
     npoints = 0
